@@ -1,5 +1,10 @@
 use serde::{Deserialize, Serialize};
+#[cfg(not(feature = "verif-hooks"))]
 use std::sync::atomic::{AtomicU64, Ordering};
+#[cfg(feature = "verif-hooks")]
+use crate::verif_hooks::AtomicU64;
+#[cfg(feature = "verif-hooks")]
+use std::sync::atomic::Ordering;
 use uuid::Uuid;
 
 /// # UuidGenerator
